@@ -242,6 +242,8 @@ fn workload(m: &mut Mon, bits: usize) {
         m.case("product", bits, vec![]);
         return;
     }
+    m.case("product", bits, vec![]); // the empty product is one
+    m.case("product", bits, vec![au(&gen::max(bits))]);
     // Sparse operands aimed at addmul's zero trimming and short-window arms:
     // a = x * 2^(64 i), b = y * 2^(64 j) for all limb offsets.
     let n = gen::nlimbs(bits);
@@ -267,6 +269,33 @@ fn workload(m: &mut Mon, bits: usize) {
                 }
                 pair(m, bits, &gen::canon(a, bits), &gen::canon(b, bits));
             }
+        }
+    }
+    // Low zero limbs on both operands plus an interior zero limb in one of them (a zero row inside the
+    // schoolbook loop while the accumulator window is nearly exhausted).
+    if n >= 3 {
+        let mut r = m.stream("c02.sparse3", bits);
+        for _ in 0..m.iters(if n <= 16 { 300 } else { 60 }) {
+            if !m.keep() {
+                continue;
+            }
+            let mk = |r: &mut vmon::rng::Rng, interior: bool| -> Vec<u64> {
+                let mut v = gen::zero(bits);
+                let lo = r.range(0, n - 1);
+                let span = r.range(1, (n - lo).min(4));
+                for k in 0..span {
+                    v[lo + k] = gen::alpha_limb(r) | 1;
+                }
+                if interior && span >= 3 {
+                    v[lo + r.range(1, span - 2)] = 0;
+                }
+                gen::canon(v, bits)
+            };
+            let ia = r.bool();
+            let a = mk(&mut r, ia);
+            let b = mk(&mut r, true);
+            pair(m, bits, &a, &b);
+            pair(m, bits, &b, &a);
         }
     }
     // Random hostile pairs.
